@@ -690,12 +690,27 @@ fn emit_field(out: &mut String, f: &FieldSpec) {
         attrs.push(format!("value_name = {:?}", v));
     }
     if !attrs.is_empty() {
-        let _ = writeln!(out, "        #[arg({})]", attrs.join(", "));
+        // the arguments in any order, in one attribute or spread over two
+        let k = spell(&f.name, 11) % attrs.len();
+        attrs.rotate_left(k);
+        if attrs.len() >= 2 && spell(&f.name, 13) % 4 == 0 {
+            let cut = 1 + spell(&f.name, 17) % (attrs.len() - 1);
+            let _ = writeln!(out, "        #[arg({})]", attrs[..cut].join(", "));
+            let _ = writeln!(out, "        #[arg({})]", attrs[cut..].join(", "));
+        } else {
+            let _ = writeln!(out, "        #[arg({})]", attrs.join(", "));
+        }
     }
     let _ = writeln!(out, "        {}: {},", f.name, rust_ty(f));
 }
 
 fn emit_enum(out: &mut String, d: &Decl, e: &EnumSpec) {
+    // (the lifetime parameter is always spelled 'a: the generated impls paste the field types into `impl<'a>` items, so an enum
+    // declared with any other lifetime name does not compile -- such declarations are not among those the macros accept)
+    emit_enum_a(out, d, e);
+}
+
+fn emit_enum_a(out: &mut String, d: &Decl, e: &EnumSpec) {
     let _ = writeln!(out, "    #[derive(Debug, Command)]");
     if let Some(t) = &e.help_title {
         let _ = writeln!(out, "    #[command(help_title = {:?})]", t);
